@@ -13,17 +13,18 @@ namespace MirVerif.Check
 open MirVerif.Gen.C15
 
 inductive Deviation where
-  /-- property constant created with `MIR_new_uint_op` is rejected -/
+  /-- (old variant, fixed da63a480) property constant created with `MIR_new_uint_op` was rejected;
+      kept as a named shape so that the mechanism stays exercised: it is not in the list -/
   | propUintRejected
   deriving DecidableEq, Repr, Inhabited
 
 /- History: `laddrDstNotOut` (fixed 6cabb311), `addrSrcNotVar` (d055fe2e), `vaListUndefMem` (5ff22cdb),
 `prsetDstNotVar` (0147517d), `retCountCrash` (e6c2b500), `jcallUnchecked` (27244d2d),
-`callRefNotCallable` (37892d9f) were listed here until the defects were fixed in /repo; their pinned
+`callRefNotCallable` (37892d9f), `propUintRejected` (da63a480) were listed here until the defects were fixed in /repo; their pinned
 replays are regressions in corpus/C15/regress.txt. -/
 
 /-- THE list.  After a fix in /repo delete the corresponding entry. -/
-def knownDeviations : List Deviation := [.propUintRejected]
+def knownDeviations : List Deviation := []
 
 def Deviation.signature : Deviation → String
   | .propUintRejected => "C15:prop-uint-rejected"
